@@ -3,7 +3,7 @@ import json
 import re
 
 from .lib import PLUMBING, callee_allow, callers, closure_args_of_call, operand_local, try_edges
-from .lib_c13 import refinement_by_interpretation
+from .lib_c13 import field_owner_adts, refinement_by_interpretation
 
 LEVEL = "other"
 TECHNIQUE = "static analysis: who-constructs census of the status refinement types with path-sensitive guard facts, interpretation of the constructing functions over the truth values of the two status predicates and evaluated constants, CHAIN slices of HttpError::into_response, who-reads census of internal_message with forward flow to log sinks, same-source and must-pass rules for the request id"
@@ -69,7 +69,9 @@ def r1_only_error_codes(ctx):
             if adt == ESC and ptypes and all(re.sub(r"^&('\{erased\} |'[a-z_]+ )?", "", t) == CESC for t in ptypes) and not callee_allow(sl, PLUMBING):
                 ctx.check(R, key, True, "widening conversion from ClientErrorStatusCode (already 4xx)", (f, bb))
                 continue
-            preds = [r"StatusCode::is_client_error$", r"StatusCode::is_server_error$"] if adt == ESC else [r"StatusCode::is_client_error$"]
+            # the predicates of http::StatusCode itself: the wrappers' own is_client_error() / is_server_error() are
+            # crate code (they could test anything), so a guard spelled with them is decided by interpretation below
+            preds = [r"^http::StatusCode::is_client_error$", r"^http::StatusCode::is_server_error$"] if adt == ESC else [r"^http::StatusCode::is_client_error$"]
             # predicate calls applied to the same status value that is wrapped (path-sensitive: `a || b`, a named flag,
             # an early return on the negation and a match on the bool are all the same guard)
             atoms = []
@@ -170,6 +172,30 @@ def r2_response_construction(ctx):
     ctx.check(R, "returns-that-builder", ret.has_call(r"response::Builder::body$") and ret.has_call(r"Response::<\(\)>::builder$|Response::<T>::builder$"), "returned response is built from the same builder chain", f)
 
 
+# the stored map may be `self.headers` unwrapped with an EMPTY map standing in for None (`self.headers.map(|b| *b)
+# .unwrap_or_default()`): storing an empty HeaderMap over the fresh builder's empty one is the same response as not storing
+_EMPTY_MAP_FOR_NONE = [r"Option::<T>::unwrap_or_default$", r"default::Default::default$", r"HeaderMap::<T>::new$", r"HeaderMap::new$"]
+
+
+def _is_self_headers(f, op):
+    """The operand is the whole header map of `self` (parameter 1, field `headers` and nothing else of self), reached by
+    moves / unboxing / value-preserving plumbing only; an Option::map over it may only project (a closure without calls
+    returning its argument), and a missing map may only be replaced by an empty one."""
+    val = f.slice(op)
+    if val.params() != [1] or not val.param_fields() or not all(pf[0] == 1 and pf[1] and pf[1][0].endswith(":headers") for pf in val.param_fields()):
+        return False
+    for c, bb in callee_allow(val, PLUMBING + _EMPTY_MAP_FOR_NONE):
+        if not re.search(r"Option::<T>::map$", c):
+            return False
+        cls = closure_args_of_call(f, f.blocks[bb]["term"])
+        if len(cls) != 1:
+            return False
+        g = cls[0][0]
+        if g.live_calls() or g.slice({"l": 0, "p": []}).params() != [2]:
+            return False      # not a projection of the boxed map
+    return True
+
+
 def _headers_wholesale(f):
     for bb, i, st in f.stmts():
         pl = st["pl"]
@@ -179,13 +205,13 @@ def _headers_wholesale(f):
                 continue
             if st["rv"]["rv"] != "use":
                 continue
-            val = f.slice(st["rv"]["op"])
-            if val.reads_field("headers") and val.params() == [1] and not callee_allow(val, PLUMBING):
+            if f.blocks[bb].get("cleanup"):
+                continue
+            if _is_self_headers(f, st["rv"]["op"]):
                 return True
     for bb, t in f.live_calls(r"iter::Extend::extend$|HeaderMap::<T>::extend$"):
         recv = f.slice(t["args"][0])
-        val = f.slice(t["args"][1])
-        if recv.has_call(r"headers_mut$") and val.reads_field("headers") and not callee_allow(val, PLUMBING):
+        if recv.has_call(r"headers_mut$") and _is_self_headers(f, t["args"][1]):
             return True
     return False
 
@@ -199,20 +225,25 @@ def r3_internal_stays_internal(ctx):
                  "for_not_found take the external message from canonical_reason(), never from the internal text", floor=7)
     allowed_readers = {"handler::HandlerError::internal_message": "accessor used for logging", "<error::HttpError as std::fmt::Debug>::fmt": "derived Debug"}
 
-    def mentions(o):
+    # a read of the field `internal_message` OF HttpError: the projection is resolved by type, so a private carrier struct
+    # with a field of the same name (`ErrorMessages { external_message, internal_message }` handed to one base
+    # constructor) is not mistaken for the error; a projection whose owner cannot be resolved counts as a read
+    def mentions(f, o):
         if isinstance(o, dict):
             if "p" in o and "l" in o:
-                return any(isinstance(e, dict) and e.get("n") == "internal_message" for e in o["p"])
-            return any(mentions(v) for v in o.values())
+                if not any(isinstance(e, dict) and e.get("n") == "internal_message" for e in o["p"]):
+                    return False
+                return any(a is None or a == "error::HttpError" for a in field_owner_adts(ctx.ds, f, o, "internal_message"))
+            return any(mentions(f, v) for v in o.values())
         if isinstance(o, list):
-            return any(mentions(v) for v in o)
+            return any(mentions(f, v) for v in o)
         return False
     readers = set()
     for f in ctx.ds.F.values():
         for blk in f.blocks:
             if blk["cleanup"]:
                 continue
-            if any(st["s"] == "assign" and mentions(st["rv"]) for st in blk["st"]) or mentions(blk["term"].get("args")) or mentions(blk["term"].get("discr")):
+            if any(st["s"] == "assign" and mentions(f, st["rv"]) for st in blk["st"]) or mentions(f, blk["term"].get("args")) or mentions(f, blk["term"].get("discr")):
                 readers.add(f.id)
     for r in sorted(readers):
         ctx.check(R, "reader:%s" % r, r in allowed_readers, allowed_readers.get(r, "reads HttpError.internal_message but is not the logging accessor / Debug: the internal text may reach a client"), ctx.ds.fn(r))
@@ -297,8 +328,9 @@ def r4_one_request_id(ctx):
     lg = [t for _, t in w.live_calls(r"slog::Logger::<D>::new$")]
     okl = any(w.slice(t["args"][1]).touches_local(idl) for t in lg)
     ctx.check(R, "logger-gets-same-id", okl, "the per-request logger is keyed with the same id: %s" % okl, w)
-    # inside http_request_handle
-    hb = ctx.ds.body_of(top)
+    # inside http_request_handle (normalised view: a stamp applied with `Result::map(|mut response| { insert; response })`
+    # on the value of an awaited dispatch function is the trailing statement it abbreviates)
+    hb = ctx.dsn.body_of(ctx.need_fn(ctx.dsn, R, r"^server::http_request_handle$"))
     if pidx is None:
         return
     # the coroutine captures params as upvars; find the local named request_id
@@ -321,8 +353,10 @@ def r4_one_request_id(ctx):
 def r5_every_response_stamped(ctx):
     R = ctx.rule("C13.R5", "every normal Ok(response) exit of http_request_handle passes HeaderMap::insert(x-request-id) on that response; HandlerError::into_response stamps the Handler arm and "
                  "delegates the Dropshot arm to HttpError::into_response; the wrapper returns only those", floor=4)
-    top = ctx.need_fn(ctx.ds, R, r"^server::http_request_handle$")
-    hb = ctx.ds.body_of(top)
+    # normalised view: an awaited private async helper is part of this body, and `result.map(|mut r| { stamp; r })` is
+    # a switch on the result whose Ok arm stamps and rebuilds Ok
+    top = ctx.need_fn(ctx.dsn, R, r"^server::http_request_handle$")
+    hb = ctx.dsn.body_of(top)
     ins = [b for b, t in hb.live_calls(r"http::HeaderMap::<T>::insert$") if any(a[0] == "const" and a[1].endswith("HEADER_REQUEST_ID") for a in hb.slice(t["args"][1]).atoms)]
     oks = [(b, st) for b, i, st in hb.aggregates(r"^std::result::Result$", "Ok") if st["pl"]["l"] == 0 and b in hb.reachable(0)]
     ctx.check(R, "ok-exits", len(oks) >= 1, "Ok(response) exits of http_request_handle: %d" % len(oks), hb)
@@ -465,9 +499,31 @@ SELFTEST = [
     {"name": "from-status-tuple-match-wrong-arm", "kind": "mutant", "expect": ["C13.R1"], "why": "the Err arm of the pair match covers only one of the non-error cases: 1xx-3xx become representable",
      "edits": [("dropshot/src/error_status_code.rs", "        if status.is_client_error() || status.is_server_error() {\n            Ok(ErrorStatusCode(status))\n        } else {\n            Err(NotAnError(status))\n        }",
                 "        match (status.is_client_error(), status.is_server_error()) {\n            (false, true) => Err(NotAnError(status)),\n            _ => Ok(ErrorStatusCode(status)),\n        }")]},
+    {"name": "headers-unwrap-or-default", "kind": "benign", "why": "unconditional store of `self.headers.map(|b| *b).unwrap_or_default()`: an empty map over the fresh builder's empty map is the same response",
+     "edits": [("dropshot/src/error.rs", "        if let Some(headers) = self.headers {\n            let builder_headers = builder", "        {\n            let headers = self.headers.map(|boxed| *boxed).unwrap_or_default();\n            let builder_headers = builder"),
+               ("dropshot/src/error.rs", "            *builder_headers = *headers;", "            *builder_headers = headers;")]},
+    {"name": "headers-unwrap-or-default-dropped", "kind": "mutant", "expect": ["C13.R2"], "why": "same idiom, but the closure replaces the error's map by a new empty one: the error's headers (Allow ..) are lost",
+     "edits": [("dropshot/src/error.rs", "        if let Some(headers) = self.headers {\n            let builder_headers = builder", "        {\n            let headers = self.headers.map(|_boxed| http::HeaderMap::new()).unwrap_or_default();\n            let builder_headers = builder"),
+               ("dropshot/src/error.rs", "            *builder_headers = *headers;", "            *builder_headers = headers;")]},
+    {"name": "carrier-struct-messages-swapped", "kind": "mutant", "expect": ["C13.R3"], "patch": "benign/C13-R9/patch.diff",
+     "why": "constructors funnelled through a private ErrorMessages carrier and from_parts (benign C13-R9), with the internal text stored as the external message",
+     "edits": [("dropshot/src/error.rs", "                external_message: standard_label.to_string(),\n                internal_message,", "                external_message: internal_message.clone(),\n                internal_message,")]},
+    {"name": "stamp-in-result-map-or-insert", "kind": "mutant", "expect": ["C13.R5"], "patch": "benign/C13-R11/patch.diff",
+     "why": "success stamp applied with Result::map on the awaited dispatch (benign C13-R11), but with entry().or_insert: a handler-supplied x-request-id survives",
+     "edits": [("dropshot/src/server.rs", "        response.headers_mut().insert(\n            HEADER_REQUEST_ID,\n            http::header::HeaderValue::from_str(request_id).unwrap(),\n        );",
+                "        response.headers_mut().entry(HEADER_REQUEST_ID).or_insert(\n            http::header::HeaderValue::from_str(request_id).unwrap(),\n        );")]},
+    {"name": "class-table-wrong-pair", "kind": "mutant", "expect": ["C13.R1"], "patch": "benign/C13-R12/patch.diff",
+     "why": "status class looked up in a constant table of (predicate fn pointer, class) (benign C13-R12), with is_server_error paired with Client: 5xx become representable as ClientErrorStatusCode",
+     "edits": [("dropshot/src/error_status_code.rs", "(http::StatusCode::is_server_error, ErrorClass::Server),", "(http::StatusCode::is_server_error, ErrorClass::Client),")]},
+    {"name": "wrapper-predicate-lies", "kind": "mutant", "expect": ["C13.R1"], "why": "ErrorStatusCode::is_client_error() tests the wrong class, so as_client_error() wraps 5xx codes as ClientErrorStatusCode (the wrappers' own predicates are interpreted, not trusted)",
+     "edits": [("dropshot/src/error_status_code.rs", "        self.0.is_client_error()", "        self.0.is_server_error()")]},
     {"name": "commuted-or", "kind": "benign", "edits": [("dropshot/src/error_status_code.rs", "if status.is_client_error() || status.is_server_error() {", "if status.is_server_error() || status.is_client_error() {")], "why": "same predicate"},
 ]
 
+LEVEL_TEXT += (" R1's path guards are calls of http::StatusCode's own predicates only; the wrappers' own is_client_error()/is_server_error(), a status class looked up in a constant table of "
+               "(predicate fn pointer, class) with find_map, and derived equality of such classes are executed by the interpreter (lib_c13.TableInterp), not trusted. R2 accepts an absent header map "
+               "being stored as an empty one. R3 resolves a projection named internal_message by the type of the struct it reads (a private carrier struct with a field of that name is not the error). "
+               "R4/R5 read http_request_handle on the normalised view (an awaited private dispatch function and a stamp applied with Result::map are part of its body).")
 LEVEL_TEXT += (" Also (R6): every potential panic site between an error value and its response is on a reviewed table (no constructor, Display impl or conversion can panic for a representable status) — "
                "a site that tests an Option/Result (unwrap / expect / a match or let-else arm that panics / a panicking closure given to a combinator) is keyed by the tested value and variant, not by its "
                "spelling — and every writer of an error's header map appends.")
